@@ -430,6 +430,11 @@ def abandoned_rpcs(env):
                               ('many_abandoned', m, m.get('later_rpc_ok') and m.get('handlers_that_ran_to_completion') == 0 and m.get('handlers_still_running_300ms_later') == 0 and m.get('rpc_in_flight_meanwhile_ok'))]:
             if not ok:
                 fails.append(dict(scenario='abandoned_rpcs', args=dict(phase=name), expected=dict(note='a started remote handler is dropped promptly (within the second the scenario waits) instead of running its 5 s to completion; abandoned RPCs use up no stream capacity; other RPCs in flight are not disturbed'), observed=x))
+    # abandoned while the whole service applies back-pressure
+    bp = _run('abandoned_behind_backpressure', {}, env, timeout=60)
+    exp = dict(holder_started=True, callers_gave_up=12, held_rpc_answered=True, fresh_rpc_ok=True, abandoned_requests_served_after_the_fact=0, handler_calls=2)
+    if bp.get('panicked') or any(bp.get(k) != v for k, v in exp.items()):
+        fails.append(dict(scenario='abandoned_behind_backpressure', args={}, expected=dict(exp, note='RPCs abandoned while the service is not ready are dropped like any other: never served after the fact, their streams given back'), observed=bp))
     return dict(name='abandoned_rpcs', validates='cancellation across the connection (stream reset / STOP_SENDING in quinn, the select in the serving task), which no contract covers: 4 ways of abandoning an RPC, 40 in a row against 4 concurrent streams, 1000 abandoned while waiting for a stream', cases=1045, failed=fails, ok=not fails,
                 props=['C12'], clause='when a caller abandons an RPC at any point, the remote handler, if it started, is dropped promptly instead of running to completion; any number of abandoned RPCs never exhausts stream capacity or blocks later RPCs; abandoning one RPC never affects others in flight')
 
